@@ -218,6 +218,7 @@ pub fn rich_dump(r: &mut Rng, prop: &str, seed: u64, profile: &str, benign_fault
             };
             let idlen = r.pick_copy(&[16usize, 20]);
             opts.user_mappings.push(UserMapSpec {
+                sysinfo_zeroed: r.coin(),
                 start,
                 size,
                 offset: 0,
@@ -991,6 +992,14 @@ fn gen_c06(r: &mut Rng, seed: u64, idx: u64) -> Scenario {
                 st.len += 0x1000;
             }
             b.world.no_remote.push((guard, 0x1000));
+            // now and then something readable is mapped directly behind the stack (a neighbouring
+            // allocation with another protection)
+            let send = b.world.regions.iter().find(|g| g.start == guard).map(|g| g.end()).unwrap_or(0);
+            if r.coin() && send != 0 && !b.world.regions.iter().any(|g| g.start < send + 0x3000 && send < g.end()) {
+                b.world.regions.push(RegionSpec { start: send, len: 0x2000, perms: "r--p".into(), offset: 0, inode: 0, name: B(Vec::new()), deleted: false, content: Content::Pattern(r.next()) });
+                b.world.regions.sort_by_key(|g| g.start);
+                tags.push("readable-behind-stack".into());
+            }
             if r.coin() {
                 // stack overflow: the stack pointer has run into the guard pages
                 b.world.threads[ti].regs[R_RSP] = guard + r.below(512) * 8;
@@ -2093,7 +2102,7 @@ fn gen_c08(r: &mut Rng, seed: u64) -> Scenario {
         let newname: Option<String> = match r.below(10) {
             0 => Some(format!("/usr/lib/with space/lib x{}.so.{}", mi, r.below(5))),
             1 => Some(format!("/usr/lib/ünï-{}/libé{}.so", mi, mi)),
-            2 => Some(format!("/usr/lib/libv{}.so.1.2.3rc{}", mi, r.below(9))),
+            2 => Some(if r.coin() { format!("/usr/lib/libv{}.so.1.2.3rc{}", mi, r.below(9)) } else { format!("/usr/lib/libv{}.so.6.0.0.{}beta{}", mi, r.below(3), r.below(9)) }),
             3 => Some(format!("/opt/app/plugin{}.bin", mi)),
             _ => None,
         };
@@ -2305,6 +2314,11 @@ fn gen_c08(r: &mut Rng, seed: u64) -> Scenario {
         }
         if !gone {
             b.world.files.push(FileSpec { path: B::s(path), content: B(img.file.clone()), mode: 0o100755 });
+        } else if r.coin() {
+            // ... and its path now holds a different file, one that has a SONAME
+            let other = crate::elfgen::build(&crate::gen::lib_spec(r, false, 80));
+            b.world.files.push(FileSpec { path: B::s(path), content: B(other.file.clone()), mode: 0o100755 });
+            push_tags(&mut tags, &["non-pie-deleted-and-replaced"]);
         }
         push_tags(&mut tags, &[if gone { "non-pie-deleted" } else { "non-pie" }]);
     }
@@ -2370,7 +2384,7 @@ fn gen_c08(r: &mut Rng, seed: u64) -> Scenario {
                 push_tags(&mut tags, &["user-name-exists-locally"]);
             }
             let name = local.unwrap_or_else(|| format!("/user/supplied{}.so", i));
-            opts.user_mappings.push(UserMapSpec { start, size, offset: 0, perms: "r-xp".into(), name: Some(B::s(&name)), identifier: B(r.bytes(idlen)) });
+            opts.user_mappings.push(UserMapSpec { sysinfo_zeroed: r.coin(), start, size, offset: 0, perms: "r-xp".into(), name: Some(B::s(&name)), identifier: B(r.bytes(idlen)) });
             push_tags(&mut tags, &[&format!("user-{}", kind)]);
         }
     }
@@ -2848,7 +2862,10 @@ fn gen_c02(r: &mut Rng, seed: u64) -> Scenario {
             }
             8 | 9 => {
                 // mapping names
-                let names: [&[u8]; 16] = [
+                let names: [&[u8]; 19] = [
+                    b"/usr/lib/liba.so.1.2.3.4rc5",
+                    b"/usr/lib/liba.so.6.0.0.1beta2",
+                    b"/usr/lib/liba.so.1.2.3.4.5rc6",
                     b"/usr/lib/x.so.1.2.3\xc3\xa94",
                     b"/usr/lib/lib\xe6\xbc\xa2.so.1.\xe6\xbc\xa2",
                     b"/usr/lib/liba.so.",
@@ -2922,7 +2939,7 @@ fn gen_c02(r: &mut Rng, seed: u64) -> Scenario {
                     match r.below(4) {
                         0 => p.opts.app_memory.push((hostile_addr(r, &fake), *r.pick(&[0u64, 1, 8, 4096]))),
                         1 => p.opts.principal = Some(hostile_addr(r, &fake)),
-                        2 => p.opts.user_mappings.push(UserMapSpec { start: *r.pick(&[0u64, u64::MAX - 10, 1 << 63, 0x6200_0000_0000]), size: *r.pick(&[0u64, 100, u64::MAX, 0x4000]), offset: 0, perms: "r-xp".into(), name: match r.below(5) { 0 => None, 1 => Some(B(vec![0xff, b'/', b'x'])), 2 => Some(B(b"/dev/shm/caf\xe9-segment".to_vec())), 3 => Some(B(b"/dev/shm/user-segment".to_vec())), _ => Some(B(b"/dev/\xff\xfe".to_vec())) }, identifier: B({ let n = r.pick_copy(&[0usize, 1, 16, 64]); r.bytes(n) }) }),
+                        2 => p.opts.user_mappings.push(UserMapSpec { sysinfo_zeroed: r.coin(), start: *r.pick(&[0u64, u64::MAX - 10, 1 << 63, 0x6200_0000_0000]), size: *r.pick(&[0u64, 100, u64::MAX, 0x4000]), offset: 0, perms: "r-xp".into(), name: match r.below(5) { 0 => None, 1 => Some(B(vec![0xff, b'/', b'x'])), 2 => Some(B(b"/dev/shm/caf\xe9-segment".to_vec())), 3 => Some(B(b"/dev/shm/user-segment".to_vec())), _ => Some(B(b"/dev/\xff\xfe".to_vec())) }, identifier: B({ let n = r.pick_copy(&[0usize, 1, 16, 64]); r.bytes(n) }) }),
                         _ => p.opts.direct_auxv = Some(vec![*r.pick(&[0u64, 1, 1 << 40, u64::MAX]), hostile_addr(r, &fake), hostile_addr(r, &fake), hostile_addr(r, &fake)]),
                     }
                 }
